@@ -34,7 +34,7 @@ def run(ctx):
     r22(ctx)
     thrift_sites.check_sites(ctx, 'R2.3')
     r24(ctx)
-    n = meta_rules.rowcount_rule(ctx, 'R2.5', only_modules={'writer'})
+    n = meta_rules.rowcount_rule(ctx, 'R2.5', only_modules={'writer', 'api', 'util'})
     ctx.floor('R2.5', 'row_groups/num_rows sites in writer', n, 4)
     n = meta_rules.filepath_rule(ctx, 'R2.6')
     ctx.floor('R2.6', 'file_path stores', n, 5)
@@ -44,6 +44,7 @@ def run(ctx):
     c04.r41(ctx, ctx.repo['writer'])
     c16.r161(ctx, ctx.repo['writer'])
     c01.r11(ctx)
+    c01.r12_units(ctx, 'R2.8')
     r27(ctx)
     from . import callsigs as _cs
     _cs.general_rules(ctx, 'R2', ['writer'])
